@@ -369,6 +369,11 @@ func DNSCaching(ttl time.Duration) func(*Attacker) {
 				// Pick a random IP from each IP family and dial each concurrently.
 				// The first that succeeds wins, the other gets canceled.
 
+				// The resolver hands out its cached slice, which is shared with
+				// every other dial: work on a copy so that shuffling and picking
+				// never alter the cached addresses.
+				ips = append([]string(nil), ips...)
+
 				rng.Shuffle(len(ips), func(i, j int) { ips[i], ips[j] = ips[j], ips[i] })
 
 				ips = firstOfEachIPFamily(ips)
